@@ -484,3 +484,38 @@ package meta
 //@ func HashID
 //@   trusted xxhash of the key bytes (T-hash): a deterministic read-only function
 //@   assigns nothing
+
+// ---- restore from a snapshot: every collection present in the protobuf is restored
+//@ prop C15
+//@ func (*RetentionPolicyInfo).unmarshal
+//@   requires rpi != nil && pb != nil
+//@   ghost sMst bool = false
+//@   ghost sVer bool = false
+//@   ghost sSg bool = false
+//@   ghost sIg bool = false
+//@   ghost sSub bool = false
+//@   store RetentionPolicyInfo.Measurements
+//@     set sMst = true
+//@   store RetentionPolicyInfo.MstVersions
+//@     set sVer = true
+//@   store RetentionPolicyInfo.ShardGroups
+//@     set sSg = true
+//@   store RetentionPolicyInfo.IndexGroups
+//@     set sIg = true
+//@   store RetentionPolicyInfo.Subscriptions
+//@     set sSub = true
+//@   ensures len(old(pb.Measurements)) > 0 ==> sMst
+//@   ensures len(old(pb.MstVersions)) > 0 ==> sVer
+//@   ensures len(old(pb.ShardGroups)) > 0 ==> sSg
+//@   ensures len(old(pb.IndexGroups)) > 0 ==> sIg
+//@   ensures len(old(pb.Subscriptions)) > 0 ==> sSub
+//@ func (*MeasurementInfo).unmarshal
+//@   trusted_assigns msti
+//@ func (*ShardGroupInfo).unmarshal
+//@   trusted_assigns sgi
+//@ func (*IndexGroupInfo).unmarshal
+//@   trusted_assigns igi
+//@ func (*SubscriptionInfo).unmarshal
+//@   trusted_assigns si
+//@ func (*DownSamplePolicyInfo).Unmarshal
+//@   trusted_assigns d
